@@ -41,6 +41,25 @@ void harness(void)
     int junk = 0, have_cmd = 0, id_known;
 
     build_state();
+#if defined(VP_TMPL2) && defined(VP_FRESH)
+    /* two-line layouts ask about the tokenizer (what the second line's handler is handed), not
+     * about the request: the request is the concrete one an announcement leaves behind, so that
+     * whatever the handler is handed is the only symbolic datum downstream */
+    {
+        struct iauth_request *r = R[0];
+        struct iauth_xquery_client *c = CL[0];
+        r->serial = 5; r->holds = 0; r->soft_holds = 0;
+        r->flags.bits[0] = 0;
+        r->state = 0;
+        r->remote_port = 1000; r->local_port = 6667;
+        r->hostname[0] = r->cli_username[0] = r->auth_username[0] = r->nickname[0] = r->realname[0] = '\0';
+        r->account[0] = r->class[0] = '\0';
+        r->text_addr[0] = '1'; r->text_addr[1] = '\0';
+        c->sent_mask = c->ref_mask = c->more_mask = 0;
+        c->password[0] = '\0';
+        memset(&c->modes, 0, sizeof(c->modes));
+    }
+#endif
     memset(&O, 0, sizeof(O));
     take_snap(&s0, 0);
     iauth_in = evbuffer_new();
